@@ -96,7 +96,7 @@ class C25(Check):
                   "stub": ["socket module", "TLS record layer / handshake (stub)", "far end", "packets (pre-packed bytes)"]}
     assumptions = ["errors are injected at the socket API; which errnos a real kernel produces where is not modelled",
                    "connect errors are injected as connect_ex result codes (connect_ex does not raise them)"]
-    required_probes = ["loss", "block", "other", "handshake", "connect", "stack"]
+    required_probes = ["loss", "block", "other", "handshake", "connect", "stack", "udp-once-variant"]
     quick_runs = len(CASES) * 3
     thorough_runs = len(CASES) * 200
     shrink_fields = ["pre"]
@@ -108,7 +108,8 @@ class C25(Check):
         g = S.gen
         case = dict(CASES[index % len(CASES)])
         return {"case": case, "cap": g.choice([4, 16, 64]), "bs": g.choice([2, 8, 64]), "maxrec": g.choice([2, 8, 64]),
-                "msglen": g.choice([1, 3, 9]), "pre": [g.choice(["tx", "rx", "dl", "ps"]) for _ in range(g.randint(0, 4))]}
+                "msglen": g.choice([1, 3, 9]), "pre": [g.choice(["tx", "rx", "dl", "ps"]) for _ in range(g.randint(0, 4))],
+                "udp_once": g.random() < 0.5}
 
     # ------------------------------------------------------------------
     def execute(self, plan):
@@ -371,12 +372,15 @@ class C25(Check):
         for i in range(5):
             far.sendto(b"in%d" % i, ("127.0.0.1", 7000))
         net.deliver_udp_all()
-        name = "serviceTxPkts" if is_send else "serviceReceives"
-        for i in range(6):
+        once = bool(plan.get("udp_once")) and is_send     # the one-packet-per-call entry point of the same stack
+        name = ("serviceTxPktsOnce" if once else "serviceTxPkts") if is_send else "serviceReceives"
+        if once:
+            out.probe("udp-once-variant")
+        for i in range(12 if once else 6):
             nf = len(net.faults.fired)
             exc = None
             try:
-                (st.serviceTxPkts if is_send else st.serviceReceivesOnce)()
+                ((st.serviceTxPktsOnce if once else st.serviceTxPkts) if is_send else st.serviceReceivesOnce)()
             except Exception as ex:
                 exc = ex
             hit = len(net.faults.fired) > nf
